@@ -6,7 +6,7 @@
  ],
  "kind": "K2",
  "tier": "thorough",
- "timeout": 3000,
+ "timeout": 4500,
  "extra_src": [
   "stubs/mem_ranges.c"
  ],
